@@ -438,7 +438,46 @@ async def throttle_e2e(loop, ctx):
                 exp = auto.attempt(u, a, ok, t)
                 connected = []
                 cw = MemWriter("c", loop)
-                if proto == "imap":
+                if rnd.random() < 0.5:
+                    # through the front door: the listener's own new_client() makes the handler from what the accepted
+                    # socket says about its peer (the listening side has another address), and the handler's start()
+                    # loop reads the lines
+                    counts["e2e_attempts_through_new_client"] += 1
+                    cw.extra = {"peername": (a, 40000 + stepn), "sockname": ("10.255.0.1", 993 if proto == "imap" else 995)}
+                    rd = asyncio.StreamReader(limit=65536)
+                    stub = _FrontStub()
+
+                    async def rec0(user, connected=connected):
+                        connected.append(user.username)
+
+                    if proto == "imap":
+                        S.IMAPServer.new_client(stub, rd, cw)
+                        handler = list(stub.imap_client_tasks.values())[-1]
+                        task_ = list(stub.imap_client_tasks.keys())[-1]
+                        handler.subprocess_intf.get_and_connect_subprocess = rec0
+                        lines = [('x LOGIN %s "%s"\r\n' % (u, PW if ok else "nope")).encode()]
+                    else:
+                        P.POP3Server.new_client(stub, rd, cw)
+                        handler = list(stub.pop3_client_tasks.values())[-1]
+                        task_ = list(stub.pop3_client_tasks.keys())[-1]
+                        handler.subprocess_intf.get_and_connect_subprocess = rec0
+                        lines = [("USER " + u + "\r\n").encode(), ("PASS " + (PW if ok else "nope") + "\r\n").encode()]
+                    for ln_ in lines:
+                        before_ = len(cw.buf)
+                        rd.feed_data(ln_)
+                        for _ in range(400):
+                            await asyncio.sleep(0)
+                            tail_ = bytes(cw.buf[before_:])
+                            if connected or cw.closed or task_.done() or (tail_.endswith(b"\r\n") and (b"x " in tail_ or tail_.startswith((b"+OK", b"-ERR")))):
+                                break
+                    rd.feed_eof()
+                    try:
+                        await asyncio.wait_for(task_, 30)
+                    except Exception:
+                        task_.cancel()
+                    out = bytes(cw.buf).decode("latin-1")
+                    got = "AUTHENTICATED" if connected else ("REFUSED" if "oo many" in out else "REJECTED")
+                elif proto == "imap":
                     c = S.IMAPClient(FakeServer(), "n", a, 5, asyncio.StreamReader(), cw)
                     si = c.subprocess_intf
 
@@ -486,6 +525,17 @@ async def throttle_e2e(loop, ctx):
     finally:
         T.time = _time
     return cases
+
+
+class _FrontStub(FakeServer):
+    """Stands in for the listening IMAPServer / POP3Server object: new_client() only uses these."""
+
+    def __init__(self):
+        self.imap_client_tasks = {}
+        self.pop3_client_tasks = {}
+
+    def client_done(self, task):
+        pass
 
 
 # ---------------------------------------------------------------- password file changes
